@@ -79,6 +79,7 @@ type tfun struct {
 	mutates   bool
 	text      string
 	skipped   []string
+	capNames  []string // results that are capture flags / extra outputs (whole-function mode), after the function's own
 	maps      map[string]bool
 	sliceBody bool // the slice is (part of) a loop body: `continue` ends it
 	inputs    map[string]string
@@ -331,6 +332,9 @@ func (e *env) expr(x ast.Expr) (string, gty) {
 		}
 		if ty, ok := e.vars[v.Name]; ok {
 			return e.lnames[v.Name], ty
+		}
+		if v.Name == e.rname {
+			return "true", tPtr // the receiver as a value (`return r`): a non-nil pointer
 		}
 		if c, ok := e.t.consts[v.Name]; ok {
 			return c, tUntyped
@@ -920,6 +924,11 @@ func hasReturn(stmts []ast.Stmt) bool {
 			if b, ok := n.(*ast.BranchStmt); ok && b.Tok == token.CONTINUE {
 				found = true // (only reachable in loop-body slices; refused elsewhere)
 			}
+			if c, ok := n.(*ast.CallExpr); ok {
+				if id, ok := c.Fun.(*ast.Ident); ok && id.Name == "panic" {
+					found = true // a captured panic ends the function
+				}
+			}
 			if _, ok := n.(*ast.FuncLit); ok {
 				return false
 			}
@@ -1029,6 +1038,10 @@ func (e *env) block(stmts []ast.Stmt, fall string, ind string) string {
 						x = wrap2(e.f.resTypes[j], ty, x)
 					}
 					vals = append(vals, x)
+				}
+				// (capture flags and extra outputs follow the function's own results)
+				for _, cn := range e.f.capNames {
+					vals = append(vals, e.lnames[cn])
 				}
 			}
 			sb.WriteString(ind + e.result(vals) + "\n")
@@ -1165,6 +1178,32 @@ func (e *env) block(stmts []ast.Stmt, fall string, ind string) string {
 				d := e.lnames[did.Name]
 				sb.WriteString(fmt.Sprintf("%slet %s := (%s.take %s.length) ++ (%s.drop %s.length)\n", ind, d, src, d, d, src))
 				continue
+			}
+			if nm, ok := e.f.calls[txt]; ok && txt == "panic" {
+				// a panic ends the function: the flag is set and the results are what they are
+				sb.WriteString(fmt.Sprintf("%slet %sCalled := true\n", ind, nm))
+				vals := []string{}
+				nOwn := len(e.f.resTypes) - len(e.f.capNames)
+				if len(e.f.resNames) == len(e.f.capNames) {
+					// unnamed own results: their zero values
+					for j := 0; j < nOwn; j++ {
+						switch e.f.resTypes[j] {
+						case tBool, tPtr:
+							vals = append(vals, "false")
+						case tErr:
+							vals = append(vals, "\"\"")
+						default:
+							vals = append(vals, "0")
+						}
+					}
+					for _, cn := range e.f.capNames {
+						vals = append(vals, e.lnames[cn])
+					}
+				} else {
+					vals = e.namedResults()
+				}
+				sb.WriteString(ind + e.result(vals) + "\n")
+				return sb.String()
 			}
 			if nm, ok := e.f.calls[txt]; ok && len(call.Args) >= 2 {
 				sb.WriteString(fmt.Sprintf("%slet %sCalled := true\n", ind, nm))
@@ -1812,12 +1851,14 @@ func (t *translator) translate(sp tspec) (res *tfun, why string) {
 			e.setVar(nm, tIntList)
 			f.resNames = append(f.resNames, nm)
 			f.resTypes = append(f.resTypes, tIntList)
+			f.capNames = append(f.capNames, nm)
 		}
 		for _, nm := range sortedValues(sp.captureCalls) {
 			e.setVar(nm+"Called", tBool)
 			e.setVar(nm+"Arg", tInt)
 			f.resNames = append(f.resNames, nm+"Called")
 			f.resTypes = append(f.resTypes, tBool)
+			f.capNames = append(f.capNames, nm+"Called")
 		}
 	}
 	as := map[string]bool{}
@@ -2080,6 +2121,13 @@ func transAll(v1, v2 *pkg) string {
 		{file: "batcher.go", recv: "batcher", name: "releaseBatchSlot", lean: "v2_releaseBatchSlot", view: "_slots", chanCap: map[string]string{"inflight": "maxConcurrentBatches"}},
 		{file: "batcher.go", recv: "batcher", name: "confirmInflightIsZero", lean: "v2_confirmInflightIsZero", view: "_slots", chanCap: map[string]string{"inflight": "maxConcurrentBatches"}},
 		{file: "batcher.go", recv: "batcher", name: "Inflight", lean: "v2_Inflight", view: "_slots", chanCap: map[string]string{"inflight": "maxConcurrentBatches"}},
+		{file: "batcher.go", recv: "batcher", name: "WithRateLimiter", lean: "v2_WithRateLimiter", view: "_set", opaque: true, captureCalls: map[string]string{"panic": "panic"}},
+		{file: "batcher.go", recv: "batcher", name: "WithFlushInterval", lean: "v2_WithFlushInterval", view: "_set", opaque: true, captureCalls: map[string]string{"panic": "panic"}},
+		{file: "batcher.go", recv: "batcher", name: "WithCapacityInterval", lean: "v2_WithCapacityInterval", view: "_set", opaque: true, captureCalls: map[string]string{"panic": "panic"}},
+		{file: "batcher.go", recv: "batcher", name: "WithAuditInterval", lean: "v2_WithAuditInterval", view: "_set", opaque: true, captureCalls: map[string]string{"panic": "panic"}},
+		{file: "batcher.go", recv: "batcher", name: "WithMaxOperationTime", lean: "v2_WithMaxOperationTime", view: "_set", opaque: true, captureCalls: map[string]string{"panic": "panic"}},
+		{file: "batcher.go", recv: "batcher", name: "WithPauseTime", lean: "v2_WithPauseTime", view: "_set", opaque: true, captureCalls: map[string]string{"panic": "panic"}},
+		{file: "batcher.go", recv: "batcher", name: "WithErrorOnFullBuffer", lean: "v2_WithErrorOnFullBuffer", view: "_set", opaque: true, captureCalls: map[string]string{"panic": "panic"}},
 		{file: "batcher.go", recv: "batcher", name: "Flush", lean: "v2_Flush", view: "_fl", chanCap: map[string]string{"flush": "1"}},
 		{file: "batcher.go", recv: "batcher", name: "Pause", lean: "v2_Pause", view: "_pz", chanCap: map[string]string{"pause": "1"}},
 		{file: "batcher.go", recv: "batcher", name: "processBatch", lean: "v2_finishTail", view: "_fin", sliceAt: "var total int = 0", sliceN: 4,
